@@ -1580,7 +1580,8 @@ impl StorageEngine {
                 _ => return Err(StorageError::WrongType.into()),
             }
         } else {
-            return Ok(Vec::new());
+            // A missing key is an empty set: the result is empty, but the keys after it are still type-checked
+            HashSet::new()
         };
         drop(shard_guard); // Release lock early
         
@@ -1600,7 +1601,7 @@ impl StorageEngine {
                     _ => return Err(StorageError::WrongType.into()),
                 }
             } else {
-                return Ok(Vec::new());
+                result.clear();
             }
         }
         
